@@ -350,7 +350,9 @@ Qed.
 (* binary64 instance, every finite Angle value a (any tolerance) and every finite scalar: float y,
    int z with |z| <= 2^53, or a second Angle b.  ok res v  (C03_ops_b64.op_ok) says:
      res = a NEW Angle, default tolerance, holding a finite r with RV r = red360 (RN v), |RV r| < 360,
-     sign of RN v  -  one IEEE rounding of the exact real operation v, then the exact reduction.
+     sign of RN v  -  one IEEE rounding of the exact real operation v, then the exact reduction -
+     AND there is an integer k with |RV r - (v + 360 k)| <= 1e-9 * max(1, |v|): congruent modulo 360
+     to the EXACT real result within the property's tolerance (|RN v - v| <= 2^-53 |v| + 2^-1075).
    Hypothesis nov v (C03_ops_b64.no_overflow): |RN v| < 2^1024, i.e. the IEEE operation does not
    overflow.  If it does overflow, the operator raises OverflowError (last two conjuncts; Angle(inf)
    calls int(inf)); a non-finite value is never stored.  Division by zero: C03_division_by_zero_b64. *)
